@@ -325,6 +325,9 @@ func decide(r *core.Report, env *e2.Env, cfg Config, w *ref.World, c []ref.Tuple
 	if len(bset) > 1 || len(sset) > 1 {
 		sig += " nondeterministic"
 	}
+	if rs := raceSignature(cfg, w.M, w.Tuples, q, bset, sset); rs != "" {
+		sig = rs
+	}
 	r.Violate(sig, fmt.Sprintf("%s: all stored -> %v ; contextual{%s} -> %v ; model{%s} tuples{%s}", q, keysOf(bset), e2.TuplesStr(c), keysOf(sset), w.M, e2.TuplesStr(w.Tuples)), cs)
 }
 
@@ -348,6 +351,86 @@ func settle(a, b map[string]int, moreA, moreB func(n int)) bool {
 		return false
 	}
 	return try(a, b, moreB) || try(b, a, moreA)
+}
+
+// reachOps lists the set operators a top-down evaluation of type#rel can reach in the model.
+func reachOps(m *ref.Model, typ, rel string) string {
+	seen := map[string]bool{}
+	ops := map[string]bool{}
+	var visit func(t, r string)
+	visit = func(t, r string) {
+		d := m.Types[t][r]
+		if d == nil || seen[t+"#"+r] {
+			return
+		}
+		seen[t+"#"+r] = true
+		var walk func(e *ref.Expr)
+		walk = func(e *ref.Expr) {
+			if e == nil {
+				return
+			}
+			switch e.K {
+			case ref.KThis:
+				for _, x := range d.Restr {
+					if x.Rel != "" {
+						visit(x.Type, x.Rel)
+					}
+				}
+			case ref.KComputed:
+				visit(t, e.Rel)
+			case ref.KTTU:
+				if ts := m.Types[t][e.Tupleset]; ts != nil {
+					for _, x := range ts.Restr {
+						visit(x.Type, e.Rel)
+					}
+				}
+			case ref.KUnion:
+				ops["union"] = true
+			case ref.KInter:
+				ops["intersection"] = true
+			case ref.KDiff:
+				ops["exclusion"] = true
+			}
+			walk(e.A)
+			walk(e.B)
+		}
+		walk(d.Rewrite)
+	}
+	visit(typ, rel)
+	var ks []string
+	for k := range ops {
+		ks = append(ks, k)
+	}
+	sort.Strings(ks)
+	return strings.Join(ks, "+")
+}
+
+// raceSignature recognises the weighted-graph engine's documented first-arrival rule: an intersection
+// or exclusion returns the first operand result that is an error or false, so a request with one false
+// and one unevaluable operand answers false or fails depending on timing. The deviation is then between
+// F and ERR, some valid tuple is unevaluable under the request context, and such an operator is reachable.
+func raceSignature(cfg Config, m *ref.Model, all []ref.Tuple, q Req, vals ...map[string]int) string {
+	if !cfg.weighted() || (q.API != "Check") {
+		return ""
+	}
+	for _, vs := range vals {
+		for v := range vs {
+			if v != "F" && v != "ERR" {
+				return ""
+			}
+		}
+	}
+	uneval := false
+	for _, t := range all {
+		if m.ValidTuple(t) && ref.CondVal(t, q.ReqCtx) == ref.E {
+			uneval = true
+		}
+	}
+	ops := reachOps(m, ref.TypeOf(q.Obj), q.Rel)
+	if !uneval || !(strings.Contains(ops, "intersection") || strings.Contains(ops, "exclusion")) {
+		return ""
+	}
+	return "weighted-engine/F-vs-ERR: first-arrival rule of intersection/exclusion with a false and an unevaluable operand (timing shifts with contextual tuples)"
 }
 
 func shapeOf(a string) string {
@@ -403,9 +486,9 @@ func Run(o *core.Options) int {
 	if o.Replay != "" {
 		return replay(o, r)
 	}
-	k, nMain, nLeak, kc := 2, 8, 2, 1
+	k, nMain, nLeak, kc := 2, 6, 2, 1
 	if o.Thorough() {
-		k, nMain, nLeak, kc = 2, 0, 48, 1
+		k, nMain, nLeak, kc = 2, 96, 24, 1
 	}
 	models, total := kit.Models(o, nMain)
 	r.Set("model_classes_total", total)
@@ -457,7 +540,7 @@ func Run(o *core.Options) int {
 		sweep(models, k)
 		if o.Thorough() {
 			// |T| = 3 on a nested subset (contains every quick model)
-			sweep(kit.Thin(models, 16), 3)
+			sweep(kit.Thin(models, 3), 3)
 		}
 		leak(r, o, kit.Thin(models, nLeak), cfg, kc)
 	}
@@ -626,19 +709,49 @@ func leak(r *core.Report, o *core.Options, models []*ref.Model, cfg Config, kc i
 				}
 			})
 			for _, d := range devs {
+				gset := map[string]int{d.got: 1}
+				fset := map[string]int{d.want: 1}
 				again := 0
-				for k := 0; k < 5; k++ {
-					runHistory(h, func(step, i int, viaBatch bool, reqs []Req, want, got string, read []string) {
-						if step == d.step && i == d.i && viaBatch == d.viaBatch && want != got {
-							again++
+				sampleHist := func(n int) {
+					for k := 0; k < n; k++ {
+						hit := false
+						runHistory(h, func(step, i int, viaBatch bool, reqs []Req, want, got string, read []string) {
+							if step == d.step && i == d.i && viaBatch == d.viaBatch {
+								gset[got]++
+								hit = true
+								if want != got {
+									again++
+								}
+							}
+						})
+						if !hit && d.i < 0 {
+							gset[d.want]++ // Read showed exactly the stored tuples this time
 						}
-					})
+					}
 				}
-				lc := LeakCase{Config: cfg, Model: m, Stored: s, History: h, Step: d.step, ViaBatch: d.viaBatch, Fresh: d.want, Got: d.got, Seen: fmt.Sprintf("1+%d/5", again), Read: d.read}
+				sampleFresh := func(n int) {
+					for k := 0; k < n; k++ {
+						switch {
+						case d.i < 0:
+							fset[d.want]++
+						case d.viaBatch:
+							fset[batch(fresh, d.reqs, h[d.step], nil)[d.i]]++
+						default:
+							fset[class(exec(fresh, d.reqs[d.i], h[d.step], nil))]++
+						}
+					}
+				}
+				sampleHist(5)
+				sampleFresh(5)
+				ok := settle(gset, fset, sampleHist, sampleFresh)
+				lc := LeakCase{Config: cfg, Model: m, Stored: s, History: h, Step: d.step, ViaBatch: d.viaBatch, Fresh: strings.Join(keysOf(fset), ", "), Got: strings.Join(keysOf(gset), ", "), Seen: fmt.Sprintf("1+%d/5", again), Read: d.read}
 				if d.i >= 0 {
 					lc.Req = d.reqs[d.i]
 				}
-				if again == 0 {
+				if !ok {
+					if len(gset) > 1 && len(fset) > 1 {
+						r.Count("nondeterministic_on_both_sides", 1)
+					}
 					r.Anomaly(lc)
 					continue
 				}
@@ -650,8 +763,12 @@ func leak(r *core.Report, o *core.Options, models []*ref.Model, cfg Config, kc i
 				if d.viaBatch {
 					api = "BatchCheck"
 				}
-				r.Violate(fmt.Sprintf("%s/leak/%s: fresh=%s in-history=%s step=%d/%d", cfg.Name, api, shapeOrClass(d.want), shapeOrClass(d.got), d.step+1, len(h)),
-					fmt.Sprintf("%s at step %d of history %s over stored{%s}: fresh server %s, cached server %s (%s); model{%s}", lc.Req, d.step, histStr(h), e2.TuplesStr(s), d.want, d.got, lc.Seen, m), lc)
+				sig := fmt.Sprintf("%s/leak/%s: fresh=%s in-history=%s step=%d/%d", cfg.Name, api, shapeOrClass(d.want), shapeOrClass(d.got), d.step+1, len(h))
+				if rs := raceSignature(cfg, m, append(append([]ref.Tuple{}, s...), h[d.step]...), lc.Req, fset, gset); rs != "" {
+					sig = rs
+				}
+				r.Violate(sig,
+					fmt.Sprintf("%s at step %d of history %s over stored{%s}: fresh server %s, cached server %s; model{%s}", lc.Req, d.step, histStr(h), e2.TuplesStr(s), lc.Fresh, lc.Got, m), lc)
 			}
 		}
 		if len(s) == 1 && len(hists) > 0 {
